@@ -354,7 +354,9 @@ impl LoopRange {
                 // c = other.start()
                 // b = self.end()
                 // a = self.start()
-                mul32(other.start(), self.end() - self.start()) >= self.start().saturating_sub(1)
+                // the product may exceed u32::MAX: it is then larger than a - 1
+                other.start().saturating_mul(self.end() - self.start())
+                    >= self.start().saturating_sub(1)
             }
     }
 
